@@ -62,7 +62,8 @@ pub async fn run_suite(seed: u64, cases: usize) -> String {
     let auth = cfg.has_op(Operation::Auth);
     let mut srv = Srv::new(cfg.clone()).await;
     // the M2S side: real dispatcher, real routing task, small broadcast channel
-    let (ptx, prx) = tokio::sync::broadcast::channel::<OutboundPrivatePayload>(*r.pick(&[1usize, 2, 16]));
+    let cap = *r.pick(&[1usize, 2, 16]);
+    let (ptx, prx) = tokio::sync::broadcast::channel::<OutboundPrivatePayload>(cap);
     let (_h, token) = narwhal_server::c2s::route_m2s_private_payload(prx, srv.router.clone());
     let mcfg = M2sServerConfig::default();
     let m2s_mng = M2sConnManager::new(&mcfg);
@@ -139,7 +140,59 @@ pub async fn run_suite(seed: u64, cases: usize) -> String {
       let plen = *r.pick(&[1usize, 2, 7, 64]);
       let tag = r.next();
       let payload: Vec<u8> = (0..plen).map(|i| match (tag >> (i % 8)) & 7 { 0 => b'\n', 1 => 0, _ => (tag.wrapping_mul(i as u64 + 3) >> 9) as u8 }).collect();
-      if choice < 7 {
+      if choice == 3 && !live.is_empty() {
+        // a burst of direct messages in one write, more than the routing task's queue holds: the routing task lags; what the
+        // queue still holds when it catches up — the last `cap` of the burst — is delivered (oracle only; lag is not modelled)
+        let (_, target) = live[r.below(live.len() as u64) as usize].clone();
+        let k = cap + r.range(1, 3) as usize;
+        let mut bytes = Vec::new();
+        let mut pls: Vec<Vec<u8>> = Vec::new();
+        for i in 0..k {
+          let id = next_id;
+          next_id += 1;
+          let pl = format!("burst-{id}-{i}").into_bytes();
+          bytes.extend_from_slice(format!("M2S_MOD_DIRECT id={id} length={} targets:1={target}\n", pl.len()).as_bytes());
+          bytes.extend_from_slice(&pl);
+          bytes.push(b'\n');
+          pls.push(pl);
+        }
+        link.send(&bytes).await;
+        srv.quiesce(3).await;
+        let acks = link.drain().await;
+        let got = srv.collect().await;
+        let n_acks = acks.iter().filter(|f| matches!(f.msg, Message::M2sModDirectAck(_))).count();
+        if n_acks != k {
+          fails.push(format!("C17: [m2s-ack] a burst of {k} M2S_MOD_DIRECT was answered by {n_acks} acknowledgements"));
+        }
+        for (kc, u) in &users {
+          let recv: Vec<Vec<u8>> = got
+            .get(kc)
+            .map(|g| g.0.iter().filter(|f| matches!(f.msg, Message::ModDirect(_))).map(|f| f.payload.clone().unwrap_or_default()).collect())
+            .unwrap_or_default();
+          if u != &target {
+            if !recv.is_empty() {
+              fails.push(format!("C17: [non-target] connection {kc} ({u}) received a direct payload addressed to {target}"));
+            }
+            continue;
+          }
+          // every payload at most once, in order; the retained tail of the burst exactly once
+          for pl in &pls[k - cap.min(k)..] {
+            let copies = recv.iter().filter(|x| *x == pl).count();
+            if copies != 1 {
+              fails.push(format!(
+                "C17: [lagged-burst] connection {kc} of {target} received {copies} copies of `{}` — one of the last {cap} payloads of a burst of {k} (queue capacity {cap}), which the routing task still holds when it catches up",
+                String::from_utf8_lossy(pl)
+              ));
+            }
+          }
+          for x in &recv {
+            if recv.iter().filter(|y| *y == x).count() > 1 || !pls.contains(x) {
+              fails.push(format!("C17: [copies] connection {kc} of {target} received a duplicated or foreign payload in a burst"));
+            }
+          }
+        }
+        *stats.entry("m2s-burst".into()).or_insert(0) += 1;
+      } else if choice < 7 {
         // modulator -> clients
         let n = r.range(1, 5);
         // targets are usernames; a NID of another domain names nobody local, whichever way targets are interpreted
